@@ -118,7 +118,7 @@ PROPS = {
 NOT_APPLICABLE = {p: "check exists (model, theorems, engine committed) but is being reconciled with the merged tree: two repairs landed in the same receiver loop and the model must follow before the check is claimed (DESIGN.md §9)" for p in
                   ["C%02d" % i for i in range(1, 21)]}
 # properties whose check exists but is being reconciled with the current tree (not claimed in MANIFEST meanwhile)
-HOLD = ["C08"]
+HOLD = ["C17"]
 HOOK_COMMITS = ["c6f7867", "24f55f1", "656796a"]
 
 PROPS["C16"] = {'assumptions': ['HKDF-SHA256 is injective on the secrets in use (collision resistance)',
@@ -383,8 +383,10 @@ PROPS["C08"] = {'assumptions': ['the classad library (github.com/PelicanPlatform
                "covers literal tokens and blanks (not comments, not the trailing ; the parser's record wrapper tolerates). wire_roundtrip is stated for "
                'plaintext and encrypted streams (uniform string mode); the marker + put_secret path of a keyed, non-encrypting stream is covered by '
                'receivers_same_bytes / receivers_fail_together (all states) and by the adwire engine on real streams, its secrecy by C09. The capped reader '
-               "GetClassAdWithMaxSize and negative length prefixes (GetString panics) belong to C13. Rendering is the classad library's: a non-finite real "
-               'literal renders as +Inf, which its own parser rejects (observation, generator keeps to finite reals).',
+               'GetClassAdWithMaxSize belongs to C13; the per-round ensureData(1) of the raw and the skipping receiver (/repo e91c289) and the rejection of '
+               'negative length prefixes (/repo 0d73d42) are in the model and exercised by the damaged-ad generator (huge counts, negative prefixes). '
+               "Rendering is the classad library's: a non-finite real literal renders as +Inf, which its own parser rejects (observation, generator keeps to "
+               'finite reals).',
  'level_text': "shortcut_agrees (for EVERY value text: a literal fast path that fires yields exactly what the parser's literal syntax assigns), decoded_value "
                "(every outcome of parseAndInsertExpression: shortcut literal / parser's own result / old-string fallback only behind a parser rejection), "
                'fallback_sound, old_string_roundtrip, decode_error_class, receivers_same_bytes (for EVERY reader state — any frames, both string modes, keyed '
